@@ -192,6 +192,13 @@ Lin(t, j) == /\ pend[t] # Idle /\ j \in pend[t].todo
              /\ pend' = [pend EXCEPT ![t].todo = @ \ {j}]
              /\ UNCHANGED l
 
+\* A call whose context was already done when it was made (inv carries cctx) may answer as usual - then it is
+\* linearized as usual - or refuse with the context's error: a call that reports an error has changed nothing.
+LinCtx(t) == /\ pend[t] # Idle /\ pend[t].todo # {}
+             /\ Has(Trace[pend[t].inv], "cctx") /\ Trace[pend[t].ret].err = "ctxerr"
+             /\ pend' = [pend EXCEPT ![t].todo = {}]
+             /\ UNCHANGED <<l, store, used>>
+
 Ret == /\ l <= Len(Trace) /\ Ev.e = "ret"
        /\ pend[Ev.t] # Idle /\ pend[Ev.t].ret = l
        /\ pend[Ev.t].todo = {}                     \* took effect before it returned, with this very reply
@@ -199,7 +206,7 @@ Ret == /\ l <= Len(Trace) /\ Ev.e = "ret"
        /\ l' = l + 1
        /\ UNCHANGED <<store, used>>
 
-Next == Reset \/ Inv \/ Ret \/ \E t \in Threads : pend[t] # Idle /\ \E j \in pend[t].todo : Lin(t, j)
+Next == Reset \/ Inv \/ Ret \/ (\E t \in Threads : pend[t] # Idle /\ \E j \in pend[t].todo : Lin(t, j)) \/ \E t \in Threads : LinCtx(t)
 Spec == Init /\ [][Next]_vars
 
 \* CONSTRAINT: records the high-water mark; once the whole trace has been explained nothing more is expanded
